@@ -5,13 +5,13 @@ PLAN = {
     "C01": ["K01b", "K01c", "L01"],
     "C02": ["L02"],
     "C03": ["K01b", "K01c", "K03", "K12a", "L03"],
-    "C04": ["K04a", "K04c", "K04f", "K16", "L04"],
+    "C04": ["K04a", "K04c", "K04f", "K04g", "K16", "L04"],
     "C05": ["K05a", "L05", "L05b"],
     "C06": ["K06", "L06"],
     "C07": ["L07"],
-    "C08": ["K08b", "K13b", "K14b", "L08"],
+    "C08": ["K08b", "K08c", "K13b", "K14b", "L08"],
     "C09": ["K08b", "L09"],
-    "C10": ["L10"],
+    "C10": ["K08c", "L10"],
     "C17": ["K17", "K17b", "K17c", "L17"],
     "C18": ["K13b", "K18a", "K18b", "L18"],
     "C19": ["K19b", "K19c", "L19"],
